@@ -38,13 +38,18 @@ TRUSTED = ['Pass/Lower.v postcondition predicates (post_*: allowed op sets, conc
            'selects, no non-truncating w-net before an Output whose source has no other reader and an eligible (not @ / r) producer, fan-out <= 2) as the reading of the '
            'pass docstrings',
            'Netlist/Sanity.v sanity_block as the reading of Block.sanity_check (C10)']
-ASSUMPTIONS = ['ROM contents are tabulated at dump time',
+ASSUMPTIONS = ['the decidable hypotheses of the Props/C09.v theorems (Pass/LowerHyps.v: sanity_block, lower_okb, '
+               'unique wire names, dco_okb, fanout_okb) are evaluated on every design and must hold (a false one is '
+               'reported as a broken tie); C09_two_way_fanout_preserves additionally assumes in-range cycle-start '
+               'values (legal_run), which the generated stimulus satisfies',
+               'ROM contents are tabulated at dump time',
                'initial register/memory values, inputs and default_value are within range',
                'zero-extension inside `dest <<= x` of a rewrite rule is unreachable on sanity-checked '
                'blocks (destination never wider than the natural result) and is not modelled',
                'designs are restored between pass sequences by re-installing block.logic / '
                'wirevector_set / wirevector_by_name snapshots (passes mutate nothing else)']
 
+HYPS = ['sanity_block', 'lower_okb', 'unique_names', 'dco_okb', 'fanout_okb']
 PASSES = {1: 'nand_synth', 2: 'and_inverter_synth', 3: 'two_way_concat', 4: 'one_bit_selects',
           5: 'direct_connect_outputs', 6: 'two_way_fanout'}
 OPCH = {119: 'w', 126: '~', 38: '&', 124: '|', 94: '^', 110: 'n', 43: '+', 45: '-', 42: '*', 60: '<',
@@ -640,6 +645,12 @@ def run(ctx):
         if orig[0][0] != 1 or orig[1][0] != 1:
             ctx.model_mismatch('sanity_block/wfb false on a design accepted by sanity_check()',
                                {'design': c['i'], 'kind': c['kind'], 'nets': c['nets']})
+        # decidable hypotheses of the Props/C09.v theorems, evaluated on this design
+        for hname, hval in zip(HYPS, orig[0]):
+            ctx.count('theorem_hypotheses', '%s:%s' % (hname, 'holds' if hval == 1 else 'FAILS'))
+            if hval != 1:
+                ctx.model_mismatch('theorem hypothesis %s is false on a design accepted by sanity_check()' % hname,
+                                   {'design': c['i'], 'kind': c['kind'], 'nets': c['nets']})
         spec_mem = orig[2]
         spec_trace = [[row[k] for k in oidx] for row in orig[3:]]
         canon = Canon(names)
